@@ -30,6 +30,15 @@ package main
 //      returns; pending is reset after it is read; the wantsCursor site is a listed exception whose side
 //      conditions are obligations
 //   d  every integer division of the anchored files has a divisor the facts in force make non-zero
+//   i,j,l  vxfw/list: layout-accumulator typestate, element edits arrive in the slice, origins stay signed (c19y.go)
+//   o  vxfw/list: the children are in list order at every normal return of a layout function and where a loop
+//      re-rows them in slice order: upward children are committed at the front, or the bottom-up block that
+//      appending builds is reversed as a whole on every path (c19o.go; the reversal recogniser also discharges
+//      the index obligations of rule c inside a reversal loop)
+//
+// The predicate abstraction (c19_flow.go) tracks at most 15 predicates per obligation; when more are relevant the
+// set is sliced by distance from the goal (goal terms, then guard terms, then definitions followed) instead of
+// giving up - any subset of the predicates is a sound abstraction.
 
 import (
 	"fmt"
